@@ -6,6 +6,7 @@
 //    (See accompanying file LICENSE_1_0.txt or copy at
 //          https://www.boost.org/LICENSE_1_0.txt)
 
+#include <memory>
 #include <vector>
 #include <set>
 #include <map>
@@ -154,7 +155,12 @@ namespace parmcb {
 #ifdef PARMCB_HAVE_TBB
     void set_global_tbb_concurrency(const std::size_t hardware_concurrency_hint) {
 #if TBB_VERSION_MAJOR > 2020
-    	oneapi::tbb::global_control global_limit(oneapi::tbb::global_control::max_allowed_parallelism, hardware_concurrency_hint);
+        // The limit is in force only while the control object is alive, so keep it until the next call.
+        static std::unique_ptr<oneapi::tbb::global_control> global_limit;
+        global_limit.reset();
+        global_limit.reset(
+                new oneapi::tbb::global_control(oneapi::tbb::global_control::max_allowed_parallelism,
+                        hardware_concurrency_hint));
 #else
     	tbb::task_scheduler_init init(hardware_concurrency_hint);
 #endif
